@@ -45,15 +45,23 @@ SmallMetrics(nn) ==
       [] nn = 4 -> { << 1, 1, 1, 1 >>, << 1, -1, 2, 0 >>, << -1, 1, 1, 1 >> }
       [] OTHER  -> { [i \in 1..nn |-> 1] }
 
+\* a spread-out subset selector for the top dimensions: weighted digit sum mod 8
+MetricDigit(v) == CASE v = 1 -> 0 [] v = -1 -> 1 [] v = 0 -> 2 [] v = 2 -> 3
+RECURSIVE SpreadFrom(_, _)
+SpreadFrom(gg, i) == IF i > Len(gg) THEN 0 ELSE MetricDigit(gg[i]) * (2 * i + 1) + SpreadFrom(gg, i + 1)
+Spread(gg) == SpreadFrom(gg, 1) % 8
+
 DimsFor(kd) ==
     CASE kd \in {"pair", "triple", "unary"} -> 0..TopN
       [] kd = "bilin" -> 2..Min2(MaxN, IF Tier = "quick" THEN 3 ELSE 4)
       [] kd = "eq"    -> 0..Min2(MaxN, 3)
       [] kd = "sym"   -> 2..Min2(MaxN, 3)
 MetricsFor(kd, nn) ==
-    CASE kd \in {"pair", "unary"} -> Metrics(nn)
+    CASE kd = "pair"   -> Metrics(nn)
+      [] kd = "unary"  -> IF nn <= 4 THEN Metrics(nn) ELSE { gg \in Metrics(nn) : Spread(gg) = 0 }
       [] kd = "triple" -> IF nn <= 3 THEN Metrics(nn)
-                          ELSE IF nn = 4 THEN (IF Tier = "quick" THEN Metrics4Few ELSE Metrics(4))
+                          ELSE IF nn = 4 THEN (IF Tier = "quick" THEN Metrics4Few
+                                               ELSE { gg \in Metrics(4) : (Spread(gg) % 4) = 0 })
                           ELSE Metrics5Few
       [] kd = "bilin"  -> SmallMetrics(nn)
       [] kd = "sym"    -> SmallMetrics(nn)
@@ -198,7 +206,6 @@ Pool(kd, nn, pos) ==
 EnvKinds == IF "C18_KIND" \in DOMAIN IOEnv THEN { IOEnv.C18_KIND } ELSE Kinds
 SliceK == IF "C18_SLICE" \in DOMAIN IOEnv THEN atoi(IOEnv.C18_SLICE) ELSE 0
 NSlice == IF "C18_NSLICE" \in DOMAIN IOEnv THEN atoi(IOEnv.C18_NSLICE) ELSE 1
-MetricDigit(v) == CASE v = 1 -> 0 [] v = -1 -> 1 [] v = 0 -> 2 [] v = 2 -> 3
 RECURSIVE MetricIndexFrom(_, _)
 MetricIndexFrom(gg, i) == IF i > Len(gg) THEN 0 ELSE MetricDigit(gg[i]) + 4 * MetricIndexFrom(gg, i + 1)
 MetricIndex(gg) == MetricIndexFrom(gg, 1)
@@ -216,11 +223,15 @@ Next == /\ Len(args) < Arity(kind)
         /\ UNCHANGED << kind, n, g >>
 Complete == Len(args) = Arity(kind)
 
+\* pairs of dimension 5 outside the spread subset of metrics are driven "lite":
+\* the six products only
+Lite == kind = "pair" /\ n = 5 /\ Spread(g) # 0
+
 (*************************** the case as JSON ******************************)
 TripleCoefs == << I(2), I(-1), I(3) >>
 Case ==
     CASE kind = "pair"   -> [k |-> kind, n |-> n, g |-> g, a |-> args[1], b |-> args[2],
-                             ca |-> args[3][1], cb |-> args[3][2]]
+                             ca |-> args[3][1], cb |-> args[3][2], lite |-> IF Lite THEN 1 ELSE 0]
       [] kind = "triple" -> [k |-> kind, n |-> n, g |-> g, a |-> args[1], b |-> args[2],
                              c |-> args[3], cf |-> TripleCoefs]
       [] kind = "unary"  -> [k |-> kind, n |-> n, g |-> g, a |-> args[1]]
@@ -249,14 +260,15 @@ PairModel ==
         /\ \A op \in Ops : ImplProd(op, A, B, g) = E[op]
         \* the five derived products are grade parts of the geometric product
         /\ \A op \in Ops : E[op] = GradeSel(AB, SelGrades(op, r, s, n))
-        \* basis vectors anticommute and square to the metric entry
-        /\ (r = 1 /\ s = 1 /\ args[1] # args[2]) => MVAdd(AB, BA) = MVZero
-        /\ (r = 1 /\ args[1] = args[2]) =>
-              AB = MVScalar(QMul(QInt(g[args[1][1]]), QMul(QOf(args[3][1]), QOf(args[3][2]))))
-        \* reverse is an anti-automorphism, grade involution an automorphism
-        /\ MVRev(AB) = MVProd("geo", MVRev(B), MVRev(A), g)
-        /\ MVInvol(AB) = MVProd("geo", MVInvol(A), MVInvol(B), g)
-        /\ ImplRev(A) = MVRev(A) /\ ImplInvol(A) = MVInvol(A)
+        /\ \/ Lite
+           \/ \* basis vectors anticommute and square to the metric entry
+              /\ (r = 1 /\ s = 1 /\ args[1] # args[2]) => MVAdd(AB, BA) = MVZero
+              /\ (r = 1 /\ args[1] = args[2]) =>
+                    AB = MVScalar(QMul(QInt(g[args[1][1]]), QMul(QOf(args[3][1]), QOf(args[3][2]))))
+              \* reverse is an anti-automorphism, grade involution an automorphism
+              /\ MVRev(AB) = MVProd("geo", MVRev(B), MVRev(A), g)
+              /\ MVInvol(AB) = MVProd("geo", MVInvol(A), MVInvol(B), g)
+              /\ ImplRev(A) = MVRev(A) /\ ImplInvol(A) = MVInvol(A)
 
 TripleModel ==
     LET A == Mono(args[1], QOf(TripleCoefs[1]))
